@@ -35,6 +35,8 @@ void h_append_lengths(void) {
     int r = aws_byte_buf_append(to, from);
     if (r == 0) CANARY("appended"); else CANARY("refused");
 }
+/* h_stack_push / h_stack_pop / h_node_traverse / h_load_node_decl: harnesses of units that are NOT listed in units.json
+ * (see not_decided there): kept for a later session. */
 void h_stack_push(void) {
     struct aws_array_list *list; const void *val;
     XGHOSTS(XF_NONE);
@@ -83,18 +85,6 @@ void h_get_attribute(void) {
     struct aws_xml_attribute a = aws_xml_node_get_attribute(node, i);
     CANARY("returned");
 }
-/* the NULL-with-zero-length document, concretely (the contracts above speak about a document OBJECT) */
-static int null_doc_cb(struct aws_xml_node *node, void *ud) { (void)node; (void)ud; __CPROVER_assert(0, "no element can be found in an empty document"); return 0; }
-void h_xml_parse_null_doc(void) {
-    XML_GHOST_RESET();
-    struct aws_allocator *alloc; __CPROVER_assume(alloc != NULL);
-    struct aws_xml_parser_options o = {.doc = {.ptr = NULL, .len = 0}, .on_root_encountered = null_doc_cb, .max_depth = nondet_size_t()};
-    int r = aws_xml_parse(alloc, &o);
-    __CPROVER_assert(r == AWS_OP_SUCCESS || r == AWS_OP_ERR, "result is 0 or -1");
-    __CPROVER_assert(r == AWS_OP_ERR ==> g_raise_count > 0, "-1 only with a registered error code");
-    CANARY("returned");
-}
-
 /* a callback that takes every legal action, checked against xml_cb_contract (DESIGN 4.6: the contract that cuts the
  * recursion traverse -> callback -> traverse must cover what callbacks can do through the public API) */
 int xml_sample_callback(struct aws_xml_node *node, void *user_data) {
